@@ -334,9 +334,13 @@ class BreakNode(Node):
         assert isinstance(self.token, TagToken)
         return f"{{%{self.token.wc[0]} break {self.token.wc[1]}%}}"
 
-    def render_to_output(self, _context: RenderContext, _buffer: TextIO) -> int:
+    def render_to_output(self, context: RenderContext, _buffer: TextIO) -> int:
         """Render the node to the output buffer."""
-        raise BreakLoop("break")
+        raise BreakLoop(
+            "break",
+            token=self.token,
+            template_name=context.template.full_name(),
+        )
 
 
 class ContinueNode(Node):
@@ -346,9 +350,13 @@ class ContinueNode(Node):
         assert isinstance(self.token, TagToken)
         return f"{{%{self.token.wc[0]} continue {self.token.wc[1]}%}}"
 
-    def render_to_output(self, _context: RenderContext, _buffer: TextIO) -> int:
+    def render_to_output(self, context: RenderContext, _buffer: TextIO) -> int:
         """Render the node to the output buffer."""
-        raise ContinueLoop("continue")
+        raise ContinueLoop(
+            "continue",
+            token=self.token,
+            template_name=context.template.full_name(),
+        )
 
 
 class BreakTag(Tag):
